@@ -246,13 +246,80 @@ fn install_fail_part(res: &mut PartResult) {
             }
         }
     }
-    // a successful install in a fresh process is covered by the repository's own tests; here: install on top of an existing one
     res.sample(json!({"history": "set_global_recorder(Nop); RecoverableRecorder::new(r).install() -> Err(r)"}));
+}
+
+/// A successful `install()` in a fresh process (each part runs in its own process): the six recorder operations
+/// through the facade macros reach the wrapped recorder while the handle is alive; after `into_inner()` (or after
+/// dropping the handle) the same macros are inert, the recorder comes back intact and is dropped exactly once.
+fn install_ok_part(res: &mut PartResult, recover: bool) {
+    res.engine = "process-level history through metrics::set_global_recorder and the facade macros".into();
+    let st = Arc::new(Stats::default());
+    res.executions = 1;
+    res.states = 1;
+    res.distinct_outcomes = 1;
+    let all_six = |tag: usize| {
+        CUR_EMISSION.with(|c| c.set(tag));
+        metrics::describe_counter!("c", Unit::Count, "d");
+        metrics::describe_gauge!("g", "d");
+        metrics::describe_histogram!("h", "d");
+        metrics::counter!("c").increment(2);
+        metrics::gauge!("g").set(1.0);
+        metrics::histogram!("h").record(1.0);
+    };
+    let handle = match RecoverableRecorder::new(Dbl { magic: 0x5eed, st: st.clone() }).install() {
+        Ok(h) => h,
+        Err(_) => {
+            res.violation("install-failed-in-fresh-process", "install() failed although no global recorder existed".into(), json!({}));
+            return;
+        }
+    };
+    all_six(1);
+    res.transitions += 6;
+    let entered = st.entered.lock().unwrap().clone();
+    if entered != vec![1; 6] || st.counter_value.load(Ordering::SeqCst) != 2 {
+        res.violation("emission-lost-while-handle-alive", format!("six operations through the installed wrapper: {} reached the recorder, counter value {}", entered.len(), st.counter_value.load(Ordering::SeqCst)), json!({}));
+    }
+    // a second install on top of it fails and hands its recorder back
+    let st2 = Arc::new(Stats::default());
+    match RecoverableRecorder::new(Dbl { magic: 0x5eed, st: st2.clone() }).install() {
+        Ok(_) => res.violation("install-succeeded-twice", "a second install() succeeded".into(), json!({})),
+        Err(e) => {
+            let r = e.into_inner();
+            if r.magic != 0x5eed || st2.drops.load(Ordering::SeqCst) != 0 {
+                res.violation("failed-install-does-not-return-recorder-intact", "the recorder handed back by the failed second install() is not intact".into(), json!({}));
+            }
+        }
+    }
+    if st.drops.load(Ordering::SeqCst) != 0 {
+        res.violation("recorder-not-dropped-exactly-once", "the installed recorder was dropped while its handle was alive".into(), json!({}));
+    }
+    if recover {
+        let r = handle.into_inner();
+        st.ended.store(true, Ordering::SeqCst);
+        if r.magic != 0x5eed || st.drops.load(Ordering::SeqCst) != 0 {
+            res.violation("recovered-recorder-not-intact", "into_inner did not return the original recorder intact".into(), json!({}));
+        }
+        all_six(2);
+        drop(r);
+    } else {
+        drop(handle);
+        all_six(2);
+    }
+    res.transitions += 6;
+    let entered = st.entered.lock().unwrap().clone();
+    if entered.len() != 6 || st.counter_value.load(Ordering::SeqCst) != 2 || st.entered_after_end.load(Ordering::SeqCst) {
+        res.violation("wrapper-not-inert-after-recovery", format!("operations made after {} still reached the recorder: entered {:?}, counter {}", if recover { "into_inner()" } else { "the handle was dropped" }, entered, st.counter_value.load(Ordering::SeqCst)), json!({}));
+    }
+    if st.drops.load(Ordering::SeqCst) != 1 {
+        res.violation("recorder-not-dropped-exactly-once", format!("wrapped recorder dropped {} times", st.drops.load(Ordering::SeqCst)), json!({}));
+    }
+    res.sample(json!({"history": "install() -> 6 operations via macros -> second install() fails -> into_inner() / drop(handle) -> 6 operations via macros (inert) -> drop"}));
 }
 
 fn parts(ctx: &Ctx) -> Vec<PartSpec> {
     let e1 = |s: &str, pb: u64| PartSpec::new(&format!("e1-{}-pb{}", s, pb), json!({"e1": s, "pb": pb}));
-    let mut v = vec![PartSpec::new("install-fails", json!({"install": true}))];
+    let mut v = vec![PartSpec::new("install-fails", json!({"install": true})), PartSpec::new("install-ok-recover", json!({"install_ok": true})), PartSpec::new("install-ok-drop", json!({"install_ok": false}))];
     if ctx.quick() {
         v.extend([e1("recover", 3), e1("drop", 3), e1("recover-1emitter", 4)]);
     } else {
@@ -265,6 +332,10 @@ fn run(ctx: &Ctx, spec: &PartSpec) -> PartResult {
     let mut res = PartResult::new(&spec.name, "");
     if spec.arg["install"].as_bool() == Some(true) {
         install_fail_part(&mut res);
+        return res;
+    }
+    if let Some(r) = spec.arg["install_ok"].as_bool() {
+        install_ok_part(&mut res, r);
         return res;
     }
     let pb = spec.arg["pb"].as_u64().unwrap_or(3) as usize;
@@ -282,7 +353,7 @@ fn main() {
     driver::main(CheckDef {
         prop: "C20",
         level: "model_checking",
-        rule: "every SC interleaving (pb-bounded) of emitting threads using the wrapper returned by RecoverableRecorder (real WeakRecorder / RecoveryHandle code; Arc clone/drop/downgrade/upgrade/try_unwrap are scheduling points via the facade Arc, plus one point inside every recorder call) with a thread calling into_inner() or dropping the handle; the double counts calls in flight, calls entering after the end, drops; epilogue emissions must be inert; plus one process-level history for a failing install(); distinct = distinct (emissions that reached the recorder) outcomes",
+        rule: "every SC interleaving (pb-bounded) of emitting threads using the wrapper returned by RecoverableRecorder (real WeakRecorder / RecoveryHandle code; Arc clone/drop/downgrade/upgrade/try_unwrap are scheduling points via the facade Arc, plus one point inside every recorder call) with a thread calling into_inner() or dropping the handle; the double counts calls in flight, calls entering after the end, drops; epilogue emissions must be inert; plus process-level histories: a failing install(), and a successful install() followed by the six operations through the facade macros, a second (failing) install, into_inner() or drop(handle), and the six operations again; distinct = distinct (emissions that reached the recorder) outcomes",
         assumptions: &["sequential consistency", "the wrapper is obtained through the guarded verif_build() (the same private build() that install() uses) instead of being installed as the process-global recorder"],
         parts,
         run,
